@@ -80,13 +80,23 @@ func VerifC10_DamagedFragmentedTail() {
 	}
 	vc := c10Big("vc", 33100)
 	vd := vsym.Bytes("vd", 1)
+	seq1, _ := m2.GetStorageStats()["last_sequence"].(uint64)
 	vsym.Assert(m2.Put(kc, vc) == nil && m2.Put(kd, vd) == nil, "Put after recovery failed")
+	seq2, _ := m2.GetStorageStats()["last_sequence"].(uint64)
+	vsym.Assert(seq2 >= seq1+2, "two writes acknowledged after the recovery did not advance the reported last sequence by two")
 	vsym.Assert(m2.Close() == nil, "Close after recovery failed")
 	m3, err := NewManager(cfg, stats.NewAtomicCollector())
 	vsym.Assert(err == nil, "second open failed")
 	if err != nil {
 		return
 	}
+	// sequence numbers across the damaged recovery: the value reported after the second open is not below what
+	// was reported before it, and a write acknowledged now is stamped above every earlier one
+	seq3, _ := m3.GetStorageStats()["last_sequence"].(uint64)
+	vsym.Assert(seq3 >= seq2, "the reported last sequence decreased across the second open (acknowledged writes after a damaged recovery were not counted)")
+	vsym.Assert(m3.Put([]byte{'e'}, []byte{1}) == nil, "Put after the second open failed")
+	seq4, _ := m3.GetStorageStats()["last_sequence"].(uint64)
+	vsym.Assert(seq4 > seq2, "a write after the second open is stamped with a sequence number that an earlier acknowledged write already carries")
 	got, gerr = m3.Get(kc)
 	vsym.Assert(gerr == nil && len(got) == len(vc) && vsym.EqBytes(got, vc), "a fragmented entry acknowledged after the recovery is lost or altered at the next open")
 	got, gerr = m3.Get(kd)
